@@ -15,6 +15,9 @@ SOUFFLEPROF = os.path.join(BUILD, "src", "souffleprof")
 EVIDENCE_DIR = os.path.join(ROOT, "evidence")
 REPLAY_DIR = os.path.join(ROOT, "replays")
 NCPU = int(os.environ.get("VERIF_JOBS", "16"))
+# Process creation is close to serialised in this sandbox (~200 spawns/s whatever the core count, and contention
+# burns CPU), so checks that spawn one souffle per case gain nothing beyond ~6 workers.
+SPAWN_WORKERS = int(os.environ.get("VERIF_SPAWN_WORKERS", "6"))
 GUARD = "SOUFFLE_VERIF"
 
 
@@ -277,7 +280,7 @@ def _shard_entry(args):
 
 def run_sharded(worker, seed, total, params=None, shards=None):
     """worker(shard_index, shard_seed, n_examples, params) -> Stats"""
-    shards = shards or NCPU
+    shards = shards or SPAWN_WORKERS
     per = max(1, total // shards)
     jobs = [(worker, i, seed * 64 + i, per, params or {}) for i in range(shards)]
     merged = Stats()
